@@ -114,7 +114,7 @@ RTrunc(x) == IF x.e >= 0 THEN x.m * P2(x.e) ELSE IF x.e < -20 THEN 0 ELSE Sgn(x.
 \* here (the sign of a zero result is not judged)
 NZero == [c |-> "nzero", m |-> 0, e |-> 0]
 Z(x) == IF x.c = "nzero" THEN RZero ELSE x
-Reals == { RZero, NZero, Fin(1, 0), Fin(-1, 0), Fin(5, -1), Fin(-5, -1), Fin(3, -2), Fin(7, 3), Fin(-3, 1), Fin(1, -10), Fin(12345, 0), Inf(1), Inf(-1), NaN,
+Reals == { RZero, NZero, Fin(1, 0), Fin(-1, 0), Fin(5, -1), Fin(-5, -1), Fin(1, -1), Fin(-3, -1), Fin(3, -2), Fin(7, 3), Fin(-3, 1), Fin(1, -10), Fin(12345, 0), Inf(1), Inf(-1), NaN,
            Fin(1, 63), Fin(-1, 63), Fin(1, 64), Fin(3, 100), Fin(-5, 120),             \* beyond the 64-bit range, inside the 128-bit one
            Fin(1, -60), Fin(-1, -60), Fin(3, -200) }                                  \* tiny but not zero
 RealBinOps == {"+", "-", "*", "/", "min", "max", "<", "<=", ">", ">=", "==", "<>"}
@@ -153,15 +153,19 @@ RealUn(op, x0) ==
                        ELSE IF x.e >= 0 THEN [k |-> "real", r |-> x]
                        ELSE IF x.e < -20 THEN [k |-> "real", r |-> RZero]                                \* |x| < 2^-5
                        ELSE LET twice == (Abs(x.m) % P2(-x.e)) * 2 IN
-                            IF twice = P2(-x.e) THEN [k |-> "skip"]                                     \* a tie: which way is a convention, not judged
+                            IF twice = P2(-x.e) THEN [k |-> "real", r |-> Norm(Fin(Sgn(x.m) * ((Abs(x.m) \div P2(-x.e)) + 1), 0))]   \* a tie goes away from zero (the convention of `round` in the implementation language; recorded as an assumption)
                             ELSE [k |-> "real", r |-> Norm(Fin(Sgn(x.m) * ((Abs(x.m) \div P2(-x.e)) + (IF twice > P2(-x.e) THEN 1 ELSE 0)), 0))]
 
 \* ---------------------------------------------------------------- operand types: who is blamed
-Types == {"int", "real", "str", "nil", "flag", "vec", "tint"}          \* tint = an int carrying tags
-Num(t) == IF t = "tint" THEN "int" ELSE t
+Types == {"int", "real", "str", "nil", "flag", "vec", "tint", "zint", "zreal", "tzint"}   \* tint = an int carrying tags; z.. = zero (tz: tagged)
+Num(t) == IF t \in {"tint", "zint", "tzint"} THEN "int" ELSE IF t = "zreal" THEN "real" ELSE t
+IsZeroT(t) == t \in {"zint", "zreal", "tzint"}
 \* dispatch on the right operand (arith.rs); the error reports one of the actual operands
+\* the operand types are checked first; only a well-typed pair can be a division by zero
 TypeBin(op, ta, tb) ==
-  IF op \in {"band", "bor", "bxor", "bsl", "bsr"} THEN (IF Num(tb) # "int" THEN "Type" ELSE IF Num(ta) # "int" THEN "Type" ELSE "ok")
+  IF op \in {"/", "rem"} /\ IsZeroT(tb) /\ Num(ta) = Num(tb) /\ Num(ta) \in {"int", "real"} /\ ~(op = "rem" /\ Num(tb) = "real") THEN "DivZero"
+  ELSE IF op = "rem" /\ Num(tb) = "real" /\ Num(ta) = "real" THEN "skip"                 \* remainder of reals: not in the property's list
+  ELSE IF op \in {"band", "bor", "bxor", "bsl", "bsr"} THEN (IF Num(tb) # "int" THEN "Type" ELSE IF Num(ta) # "int" THEN "Type" ELSE "ok")
   ELSE IF Num(tb) = "int" THEN (IF Num(ta) = "int" THEN "ok" ELSE "Type")
   ELSE IF Num(tb) = "real" THEN (IF Num(ta) = "real" THEN "ok" ELSE "Type") ELSE "Type"
 TypeUn(op, ta) ==
